@@ -1,1 +1,289 @@
 // Kani contract harnesses for /repo/arrow-buffer/src/buffer/ops.rs (child module: sees private items via super::)
+use super::*;
+#[path = "/verif/kani/support/spec.rs"]
+mod spec;
+#[allow(unused_imports)]
+use spec::*;
+
+// ---------------------------------------------------------------------------------------------
+// Shared harness helpers (spec side). Nothing here calls the code under test.
+// ---------------------------------------------------------------------------------------------
+
+/// N <= 64 fully symbolic bytes built without a loop (lets a harness use a small unwind bound).
+#[allow(dead_code)]
+fn any_bytes<const N: usize>() -> [u8; N] {
+    let w: (u128, u128, u128, u128) = (kani::any(), kani::any(), kani::any(), kani::any());
+    let full: [u8; 64] = unsafe { std::mem::transmute(w) };
+    let mut out = [0u8; N];
+    out.copy_from_slice(&full[..N]);
+    out
+}
+#[allow(dead_code)]
+fn mask(b: bool) -> u64 { if b { u64::MAX } else { 0 } }
+
+// STUB (listed): `core::ptr::align_offset`, the single address-dependent step of
+// `<[u8]>::align_to::<u64>()`. CBMC cannot constant-fold an address during symbolic execution, so
+// without it every slice length after `align_to` is symbolic (measured: out of memory / > 5 min).
+// The stub returns the exact value of the real function for a pointer whose address is congruent
+// to the harness-supplied skew modulo 8, and it *asserts* that congruence on the real address, so
+// nothing is assumed about the allocator; the rest of the real `align_to` runs unchanged.
+// The k-th call uses ALIGN_SKEWS[k] (control flow is concrete, so k is concrete).
+#[allow(dead_code)]
+static mut ALIGN_SKEWS: [usize; 6] = [0; 6];
+#[allow(dead_code)]
+static mut ALIGN_CALLS: usize = 0;
+#[allow(dead_code)]
+fn set_skews(s: [usize; 6]) { unsafe { ALIGN_SKEWS = s; ALIGN_CALLS = 0; } }
+/// builder for the list of expected `align_to` calls of one harness (bookkeeping only: a wrong
+/// prediction makes the stub's address assertion fail, it can never hide a violation)
+#[derive(Clone, Copy)]
+#[allow(dead_code)]
+struct Skews { s: [usize; 6], n: usize }
+#[allow(dead_code)]
+fn skews() -> Skews { Skews { s: [0; 6], n: 0 } }
+#[allow(dead_code)]
+impl Skews {
+    /// one `align_to` call on a slice that starts `sk` bytes past an 8-byte aligned address
+    fn raw(mut self, sk: usize) -> Self { self.s[self.n] = sk % 8; self.n += 1; self }
+    /// the `align_to` call of `UnalignedBitChunk::new(bytes, off, len)` (made only when the addressed
+    /// byte range is longer than 16 bytes), `bytes` starting `sk` bytes past an 8-byte aligned address
+    fn ubc(self, sk: usize, off: usize, len: usize) -> Self {
+        if len > 0 && (len + off % 8 + 7) / 8 > 16 { self.raw(sk + off / 8) } else { self }
+    }
+    fn install(self) { unsafe { ALIGN_SKEWS = self.s; ALIGN_CALLS = 0; } }
+}
+#[allow(dead_code)]
+unsafe fn stub_align_offset<T>(p: *const T, a: usize) -> usize {
+    assert!(std::mem::size_of::<T>() == 1 && a == 8);
+    let k = unsafe { ALIGN_CALLS };
+    assert!(k < 6);
+    unsafe { ALIGN_CALLS = k + 1 };
+    let skew = unsafe { ALIGN_SKEWS[k] } % a;
+    assert!((p as usize) % a == skew);
+    (a - skew) % a
+}
+macro_rules! inst {
+    ($name:ident, $unwind:expr, $call:expr) => {
+        #[kani::proof]
+        #[kani::unwind($unwind)]
+        #[kani::stub(core::ptr::align_offset, stub_align_offset)]
+        fn $name() { $call }
+    };
+}
+
+fn mk(a: &[u8], sk: usize) -> Buffer { Buffer::from_slice_ref(a).slice(sk) }
+
+/// one of the 16 uniform bitwise binary operations, selected by its truth table t[2a+b]
+fn tt2(t: [bool; 4]) -> impl Fn(u64, u64) -> u64 {
+    let (t0, t1, t2, t3) = (mask(t[0]), mask(t[1]), mask(t[2]), mask(t[3]));
+    move |a, b| (t0 & !a & !b) | (t1 & !a & b) | (t2 & a & !b) | (t3 & a & b)
+}
+
+fn bin_helper_grid<const OL: usize, const OR: usize, const LEN: usize, const NL: usize, const NR: usize>() {
+    let a: [u8; NL] = any_bytes();
+    let b: [u8; NR] = any_bytes();
+    let t: [bool; 4] = [kani::any(), kani::any(), kani::any(), kani::any()];
+    let (ba, bb) = (mk(&a, 0), mk(&b, 0));
+    let z = bitwise_bin_op_helper(&ba, OL, &bb, OR, LEN, tt2(t));
+    assert!(z.len() == (LEN + 7) / 8);
+    if LEN > 0 {
+        let i: usize = kani::any();
+        kani::assume(i < LEN);
+        let (x, y) = (bit(&a, OL + i), bit(&b, OR + i));
+        assert!(bit(z.as_slice(), i) == t[2 * (x as usize) + (y as usize)]);
+        kani::cover!(bit(z.as_slice(), i) && x && !y);
+        kani::cover!(!bit(z.as_slice(), i) && y);
+    }
+    kani::cover!(z.len() == (LEN + 7) / 8);
+}
+// Contract (C19) bitwise_bin_op_helper(l, ol, r, or, len, op) for each of the 16 uniform bitwise binary
+// operations (symbolic truth table t): returns a zero-offset bitmap of exactly ceil(len/8) bytes
+// whose bit i is t[l-bit ol+i][r-bit or+i] for every i < len; inputs fully symbolic (bits outside the
+// addressed ranges included, so they are not read as data).
+// @unit name=ops_bin_helper_3_5_12 props=C19 kind=bounded bound=grid_(ol,or,len,bytes_l,bytes_r)=(3,5,12,3,3) fns=bitwise_bin_op_helper tier=thorough timeout=240 note=not_confirmed_under_load
+inst!(ops_bin_helper_3_5_12, 12, bin_helper_grid::<3, 5, 12, 3, 3>());
+// @unit name=ops_bin_helper_0_0_64 props=C19 kind=bounded bound=grid_(ol,or,len,bytes_l,bytes_r)=(0,0,64,9,8) fns=bitwise_bin_op_helper tier=thorough timeout=240 note=not_confirmed_under_load
+inst!(ops_bin_helper_0_0_64, 12, bin_helper_grid::<0, 0, 64, 9, 8>());
+// @unit name=ops_bin_helper_0_9_65 props=C19 kind=bounded bound=grid_(ol,or,len,bytes_l,bytes_r)=(0,9,65,10,10) fns=bitwise_bin_op_helper tier=thorough timeout=240 note=not_confirmed_under_load
+inst!(ops_bin_helper_0_9_65, 12, bin_helper_grid::<0, 9, 65, 10, 10>());
+// @unit name=ops_bin_helper_3_3_70 props=C19 kind=bounded bound=grid_(ol,or,len,bytes_l,bytes_r)=(3,3,70,11,10) fns=bitwise_bin_op_helper tier=thorough timeout=240 note=not_confirmed_under_load
+inst!(ops_bin_helper_3_3_70, 12, bin_helper_grid::<3, 3, 70, 11, 10>());
+// @unit name=ops_bin_helper_0_0_0 props=C19 kind=bounded bound=grid_(ol,or,len,bytes_l,bytes_r)=(0,0,0,2,1) fns=bitwise_bin_op_helper tier=thorough timeout=240 note=not_confirmed_under_load
+inst!(ops_bin_helper_0_0_0, 12, bin_helper_grid::<0, 0, 0, 2, 1>());
+// @unit name=ops_bin_helper_7_1_1 props=C19 kind=bounded bound=grid_(ol,or,len,bytes_l,bytes_r)=(7,1,1,2,1) fns=bitwise_bin_op_helper tier=thorough timeout=240 note=not_confirmed_under_load
+inst!(ops_bin_helper_7_1_1, 12, bin_helper_grid::<7, 1, 1, 2, 1>());
+// @unit name=ops_bin_helper_63_64_65 props=C19 kind=bounded bound=grid_(ol,or,len,bytes_l,bytes_r)=(63,64,65,17,17) fns=bitwise_bin_op_helper tier=thorough timeout=240 note=not_confirmed_under_load
+inst!(ops_bin_helper_63_64_65, 12, bin_helper_grid::<63, 64, 65, 17, 17>());
+// @unit name=ops_bin_helper_1_65_127 props=C19 kind=bounded bound=grid_(ol,or,len,bytes_l,bytes_r)=(1,65,127,17,24) fns=bitwise_bin_op_helper tier=thorough timeout=240 note=not_confirmed_under_load
+inst!(ops_bin_helper_1_65_127, 12, bin_helper_grid::<1, 65, 127, 17, 24>());
+// @unit name=ops_bin_helper_130_2_200 props=C19 kind=bounded bound=grid_(ol,or,len,bytes_l,bytes_r)=(130,2,200,43,26) fns=bitwise_bin_op_helper tier=thorough timeout=240 note=not_confirmed_under_load
+inst!(ops_bin_helper_130_2_200, 12, bin_helper_grid::<130, 2, 200, 43, 26>());
+// @unit name=ops_bin_helper_8_16_128 props=C19 kind=bounded bound=grid_(ol,or,len,bytes_l,bytes_r)=(8,16,128,18,18) fns=bitwise_bin_op_helper tier=thorough timeout=240 note=not_confirmed_under_load
+inst!(ops_bin_helper_8_16_128, 12, bin_helper_grid::<8, 16, 128, 18, 18>());
+// @unit name=ops_bin_helper_129_127_129 props=C19 kind=bounded bound=grid_(ol,or,len,bytes_l,bytes_r)=(129,127,129,34,32) fns=bitwise_bin_op_helper tier=thorough timeout=240 note=not_confirmed_under_load
+inst!(ops_bin_helper_129_127_129, 12, bin_helper_grid::<129, 127, 129, 34, 32>());
+// @unit name=ops_bin_helper_5_5_63 props=C19 kind=bounded bound=grid_(ol,or,len,bytes_l,bytes_r)=(5,5,63,10,9) fns=bitwise_bin_op_helper tier=thorough timeout=240 note=not_confirmed_under_load
+inst!(ops_bin_helper_5_5_63, 12, bin_helper_grid::<5, 5, 63, 10, 9>());
+
+fn unary_helper_grid<const OFF: usize, const LEN: usize, const N: usize>() {
+    let a: [u8; N] = any_bytes();
+    let t: [bool; 2] = [kani::any(), kani::any()];
+    let ba = mk(&a, 0);
+    set_skews([0; 6]);
+    let (m0, m1) = (mask(t[0]), mask(t[1]));
+    let z = bitwise_unary_op_helper(&ba, OFF, LEN, |x| (m0 & !x) | (m1 & x));
+    assert!(z.len() == (LEN + 7) / 8);
+    if LEN > 0 {
+        let i: usize = kani::any();
+        kani::assume(i < LEN);
+        assert!(bit(z.as_slice(), i) == t[bit(&a, OFF + i) as usize]);
+        kani::cover!(bit(z.as_slice(), i) && !t[0]);
+        kani::cover!(!bit(z.as_slice(), i) && t[0]);
+    }
+    kani::cover!(z.len() == (LEN + 7) / 8);
+}
+// Contract (C19) bitwise_unary_op_helper(src, offset, len, op) for each of the 4 uniform bitwise unary
+// operations: zero-offset bitmap of exactly ceil(len/8) bytes, bit i = t[src-bit offset+i], i < len.
+// @unit name=ops_unary_helper_3_12 props=C19 kind=bounded bound=grid_(offset,len,bytes)=(3,12,3) fns=bitwise_unary_op_helper tier=thorough timeout=240 note=not_confirmed_under_load
+inst!(ops_unary_helper_3_12, 12, unary_helper_grid::<3, 12, 3>());
+// @unit name=ops_unary_helper_0_64 props=C19 kind=bounded bound=grid_(offset,len,bytes)=(0,64,8) fns=bitwise_unary_op_helper tier=thorough timeout=240 note=not_confirmed_under_load
+inst!(ops_unary_helper_0_64, 12, unary_helper_grid::<0, 64, 8>());
+// @unit name=ops_unary_helper_5_65 props=C19 kind=bounded bound=grid_(offset,len,bytes)=(5,65,10) fns=bitwise_unary_op_helper tier=thorough timeout=240 note=not_confirmed_under_load
+inst!(ops_unary_helper_5_65, 12, unary_helper_grid::<5, 65, 10>());
+// @unit name=ops_unary_helper_0_0 props=C19 kind=bounded bound=grid_(offset,len,bytes)=(0,0,1) fns=bitwise_unary_op_helper tier=thorough timeout=240 note=not_confirmed_under_load
+inst!(ops_unary_helper_0_0, 12, unary_helper_grid::<0, 0, 1>());
+// @unit name=ops_unary_helper_63_2 props=C19 kind=bounded bound=grid_(offset,len,bytes)=(63,2,10) fns=bitwise_unary_op_helper tier=thorough timeout=240 note=not_confirmed_under_load
+inst!(ops_unary_helper_63_2, 12, unary_helper_grid::<63, 2, 10>());
+// @unit name=ops_unary_helper_64_128 props=C19 kind=bounded bound=grid_(offset,len,bytes)=(64,128,24) fns=bitwise_unary_op_helper tier=thorough timeout=240 note=not_confirmed_under_load
+inst!(ops_unary_helper_64_128, 12, unary_helper_grid::<64, 128, 24>());
+// @unit name=ops_unary_helper_1_127 props=C19 kind=bounded bound=grid_(offset,len,bytes)=(1,127,17) fns=bitwise_unary_op_helper tier=thorough timeout=240 note=not_confirmed_under_load
+inst!(ops_unary_helper_1_127, 12, unary_helper_grid::<1, 127, 17>());
+// @unit name=ops_unary_helper_130_200 props=C19 kind=bounded bound=grid_(offset,len,bytes)=(130,200,42) fns=bitwise_unary_op_helper tier=thorough timeout=240 note=not_confirmed_under_load
+inst!(ops_unary_helper_130_200, 12, unary_helper_grid::<130, 200, 42>());
+// @unit name=ops_unary_helper_9_129 props=C19 kind=bounded bound=grid_(offset,len,bytes)=(9,129,19) fns=bitwise_unary_op_helper tier=thorough timeout=240 note=not_confirmed_under_load
+inst!(ops_unary_helper_9_129, 12, unary_helper_grid::<9, 129, 19>());
+// @unit name=ops_unary_helper_7_63 props=C19 kind=bounded bound=grid_(offset,len,bytes)=(7,63,10) fns=bitwise_unary_op_helper tier=thorough timeout=240 note=not_confirmed_under_load
+inst!(ops_unary_helper_7_63, 12, unary_helper_grid::<7, 63, 10>());
+
+fn quat_helper_grid<const O0: usize, const O1: usize, const O2: usize, const O3: usize, const LEN: usize, const N: usize>() {
+    let a: [u8; N] = any_bytes();
+    let b: [u8; N] = any_bytes();
+    let c: [u8; N] = any_bytes();
+    let d: [u8; N] = any_bytes();
+    // truth table of a uniform 4-input bitwise operation, as 16 masks
+    let tb: u16 = kani::any();
+    let m = |k: u32| mask((tb >> k) & 1 == 1);
+    let ms: [u64; 16] = [m(0), m(1), m(2), m(3), m(4), m(5), m(6), m(7), m(8), m(9), m(10), m(11), m(12), m(13), m(14), m(15)];
+    let op = |w: u64, x: u64, y: u64, z: u64| -> u64 {
+        let mut r = 0u64;
+        let mut k = 0;
+        while k < 16 {
+            let sel = (if k & 8 != 0 { w } else { !w }) & (if k & 4 != 0 { x } else { !x })
+                & (if k & 2 != 0 { y } else { !y }) & (if k & 1 != 0 { z } else { !z });
+            r |= sel & ms[k];
+            k += 1;
+        }
+        r
+    };
+    let (ba, bb, bc, bd) = (mk(&a, 0), mk(&b, 0), mk(&c, 0), mk(&d, 0));
+    let z = bitwise_quaternary_op_helper([&ba, &bb, &bc, &bd], [O0, O1, O2, O3], LEN, op);
+    assert!(z.len() == (LEN + 7) / 8);
+    if LEN > 0 {
+        let i: usize = kani::any();
+        kani::assume(i < LEN);
+        let k = 8 * (bit(&a, O0 + i) as u32) + 4 * (bit(&b, O1 + i) as u32) + 2 * (bit(&c, O2 + i) as u32) + (bit(&d, O3 + i) as u32);
+        assert!(bit(z.as_slice(), i) == ((tb >> k) & 1 == 1));
+        kani::cover!(bit(z.as_slice(), i) && k == 5);
+        kani::cover!(!bit(z.as_slice(), i) && k == 10);
+    }
+    kani::cover!(z.len() == (LEN + 7) / 8);
+}
+// Contract (C19) bitwise_quaternary_op_helper(bufs, offsets, len, op) for each of the 65536 uniform
+// bitwise 4-input operations (symbolic 16-entry truth table): zero-offset bitmap of exactly
+// ceil(len/8) bytes, bit i = table[b0-bit o0+i, b1-bit o1+i, b2-bit o2+i, b3-bit o3+i], i < len.
+// @unit name=ops_quat_helper_0_3_5_9_12 props=C19 kind=bounded bound=grid_(o0,o1,o2,o3,len,bytes)=(0,3,5,9,12,3) fns=bitwise_quaternary_op_helper tier=thorough timeout=400 note=not_confirmed_under_load
+inst!(ops_quat_helper_0_3_5_9_12, 20, quat_helper_grid::<0, 3, 5, 9, 12, 3>());
+// @unit name=ops_quat_helper_0_0_0_0_64 props=C19 kind=bounded bound=grid_(o0,o1,o2,o3,len,bytes)=(0,0,0,0,64,8) fns=bitwise_quaternary_op_helper tier=thorough timeout=400 note=not_confirmed_under_load
+inst!(ops_quat_helper_0_0_0_0_64, 20, quat_helper_grid::<0, 0, 0, 0, 64, 8>());
+// @unit name=ops_quat_helper_1_0_63_64_65 props=C19 kind=bounded bound=grid_(o0,o1,o2,o3,len,bytes)=(1,0,63,64,65,17) fns=bitwise_quaternary_op_helper tier=thorough timeout=400 note=not_confirmed_under_load
+inst!(ops_quat_helper_1_0_63_64_65, 20, quat_helper_grid::<1, 0, 63, 64, 65, 17>());
+// @unit name=ops_quat_helper_7_8_9_130_130 props=C19 kind=bounded bound=grid_(o0,o1,o2,o3,len,bytes)=(7,8,9,130,130,33) fns=bitwise_quaternary_op_helper tier=thorough timeout=400 note=not_confirmed_under_load
+inst!(ops_quat_helper_7_8_9_130_130, 20, quat_helper_grid::<7, 8, 9, 130, 130, 33>());
+// @unit name=ops_quat_helper_0_1_2_3_0 props=C19 kind=bounded bound=grid_(o0,o1,o2,o3,len,bytes)=(0,1,2,3,0,1) fns=bitwise_quaternary_op_helper tier=thorough timeout=400 note=not_confirmed_under_load
+inst!(ops_quat_helper_0_1_2_3_0, 20, quat_helper_grid::<0, 1, 2, 3, 0, 1>());
+// @unit name=ops_quat_helper_64_65_1_2_127 props=C19 kind=bounded bound=grid_(o0,o1,o2,o3,len,bytes)=(64,65,1,2,127,24) fns=bitwise_quaternary_op_helper tier=thorough timeout=400 note=not_confirmed_under_load
+inst!(ops_quat_helper_64_65_1_2_127, 20, quat_helper_grid::<64, 65, 1, 2, 127, 24>());
+
+fn buffer_bin_grid<const OP: u8, const OL: usize, const OR: usize, const LEN: usize, const NL: usize, const NR: usize, const SKL: usize, const SKR: usize>() {
+    let a: [u8; NL] = any_bytes();
+    let b: [u8; NR] = any_bytes();
+    let (ba, bb) = (mk(&a, SKL), mk(&b, SKR));
+    set_skews([SKL % 8, SKR % 8, SKL % 8, SKR % 8, 0, 0]);
+    let z = match OP {
+        0 => buffer_bin_and(&ba, OL, &bb, OR, LEN),
+        1 => buffer_bin_or(&ba, OL, &bb, OR, LEN),
+        2 => buffer_bin_xor(&ba, OL, &bb, OR, LEN),
+        _ => buffer_bin_and_not(&ba, OL, &bb, OR, LEN),
+    };
+    assert!(8 * z.len() >= LEN);
+    let i: usize = kani::any();
+    kani::assume(i < LEN);
+    let (p, q) = (bit(&a, 8 * SKL + OL + i), bit(&b, 8 * SKR + OR + i));
+    assert!(bit(z.as_slice(), i) == match OP { 0 => p & q, 1 => p | q, 2 => p ^ q, _ => p & !q });
+    kani::cover!(bit(z.as_slice(), i));
+    kani::cover!(!bit(z.as_slice(), i));
+}
+// Contract (C19) buffer_bin_and / buffer_bin_or / buffer_bin_xor / buffer_bin_and_not
+// (l, ol, r, or, len): the returned Buffer is a zero-offset bitmap of at least ceil(len/8) bytes whose
+// bit i is l-bit(ol+i) op r-bit(or+i) for every i < len (OP 0/1/2/3 = and/or/xor/and_not); inputs
+// fully symbolic. Path labels as for BooleanBuffer::from_bitwise_binary_op.
+// @unit name=ops_buffer_bin_and_1_65_7_9_17_0_0 props=C19 kind=bounded bound=grid_(ol,or,len,bytes_l,bytes_r,skew_l,skew_r)=(1,65,7,9,17,0,0)_path=aligned_exact fns=buffer_bin_and tier=thorough timeout=300 note=not_confirmed_under_load
+inst!(ops_buffer_bin_and_1_65_7_9_17_0_0, 12, buffer_bin_grid::<0, 1, 65, 7, 9, 17, 0, 0>());
+// @unit name=ops_buffer_bin_or_3_5_12_2_3_0_0 props=C19 kind=bounded bound=grid_(ol,or,len,bytes_l,bytes_r,skew_l,skew_r)=(3,5,12,2,3,0,0)_path=bitchunks fns=buffer_bin_or tier=thorough timeout=300 note=not_confirmed_under_load
+inst!(ops_buffer_bin_or_3_5_12_2_3_0_0, 12, buffer_bin_grid::<1, 3, 5, 12, 2, 3, 0, 0>());
+// @unit name=ops_buffer_bin_xor_0_64_65_9_24_0_0 props=C19 kind=bounded bound=grid_(ol,or,len,bytes_l,bytes_r,skew_l,skew_r)=(0,64,65,9,24,0,0)_path=aligned_suffix fns=buffer_bin_xor tier=thorough timeout=300 note=not_confirmed_under_load
+inst!(ops_buffer_bin_xor_0_64_65_9_24_0_0, 12, buffer_bin_grid::<2, 0, 64, 65, 9, 24, 0, 0>());
+// @unit name=ops_buffer_bin_and_not_3_67_70_10_18_0_0 props=C19 kind=bounded bound=grid_(ol,or,len,bytes_l,bytes_r,skew_l,skew_r)=(3,67,70,10,18,0,0)_path=aligned_suffix fns=buffer_bin_and_not tier=thorough timeout=300 note=not_confirmed_under_load
+inst!(ops_buffer_bin_and_not_3_67_70_10_18_0_0, 12, buffer_bin_grid::<3, 3, 67, 70, 10, 18, 0, 0>());
+// @unit name=ops_buffer_bin_and_3_3_70_11_17_1_1 props=C19 kind=bounded bound=grid_(ol,or,len,bytes_l,bytes_r,skew_l,skew_r)=(3,3,70,11,17,1,1)_path=unaligned_chunks_rem fns=buffer_bin_and tier=thorough timeout=300 note=not_confirmed_under_load
+inst!(ops_buffer_bin_and_3_3_70_11_17_1_1, 12, buffer_bin_grid::<0, 3, 3, 70, 11, 17, 1, 1>());
+// @unit name=ops_buffer_bin_or_8_72_20_4_12_0_0 props=C19 kind=bounded bound=grid_(ol,or,len,bytes_l,bytes_r,skew_l,skew_r)=(8,72,20,4,12,0,0)_path=aligned_suffix fns=buffer_bin_or tier=thorough timeout=300 note=not_confirmed_under_load
+inst!(ops_buffer_bin_or_8_72_20_4_12_0_0, 12, buffer_bin_grid::<1, 8, 72, 20, 4, 12, 0, 0>());
+// @unit name=ops_buffer_bin_xor_0_9_65_9_10_0_0 props=C19 kind=bounded bound=grid_(ol,or,len,bytes_l,bytes_r,skew_l,skew_r)=(0,9,65,9,10,0,0)_path=bitchunks fns=buffer_bin_xor tier=thorough timeout=300 note=not_confirmed_under_load
+inst!(ops_buffer_bin_xor_0_9_65_9_10_0_0, 12, buffer_bin_grid::<2, 0, 9, 65, 9, 10, 0, 0>());
+// @unit name=ops_buffer_bin_and_not_63_0_64_16_8_0_0 props=C19 kind=bounded bound=grid_(ol,or,len,bytes_l,bytes_r,skew_l,skew_r)=(63,0,64,16,8,0,0)_path=bitchunks fns=buffer_bin_and_not tier=thorough timeout=300 note=not_confirmed_under_load
+inst!(ops_buffer_bin_and_not_63_0_64_16_8_0_0, 12, buffer_bin_grid::<3, 63, 0, 64, 16, 8, 0, 0>());
+// @unit name=ops_buffer_bin_and_130_2_200_42_26_0_0 props=C19 kind=bounded bound=grid_(ol,or,len,bytes_l,bytes_r,skew_l,skew_r)=(130,2,200,42,26,0,0)_path=aligned_suffix fns=buffer_bin_and tier=thorough timeout=300 note=not_confirmed_under_load
+inst!(ops_buffer_bin_and_130_2_200_42_26_0_0, 12, buffer_bin_grid::<0, 130, 2, 200, 42, 26, 0, 0>());
+// @unit name=ops_buffer_bin_or_65_1_130_25_17_0_0 props=C19 kind=bounded bound=grid_(ol,or,len,bytes_l,bytes_r,skew_l,skew_r)=(65,1,130,25,17,0,0)_path=aligned_suffix fns=buffer_bin_or tier=thorough timeout=300 note=not_confirmed_under_load
+inst!(ops_buffer_bin_or_65_1_130_25_17_0_0, 12, buffer_bin_grid::<1, 65, 1, 130, 25, 17, 0, 0>());
+
+fn buffer_not_grid<const OFF: usize, const LEN: usize, const N: usize, const SK: usize>() {
+    let a: [u8; N] = any_bytes();
+    let ba = mk(&a, SK);
+    set_skews([SK % 8; 6]);
+    let z = buffer_unary_not(&ba, OFF, LEN);
+    assert!(8 * z.len() >= LEN);
+    let i: usize = kani::any();
+    kani::assume(i < LEN);
+    assert!(bit(z.as_slice(), i) == !bit(&a, 8 * SK + OFF + i));
+    kani::cover!(bit(z.as_slice(), i));
+    kani::cover!(!bit(z.as_slice(), i));
+}
+// Contract (C19) buffer_unary_not(src, offset, len): "Apply a bitwise not to one input and return the
+// result as a Buffer. The input is treated as a bitmap [...] offset and length are specified in
+// number of bits": the returned Buffer is a zero-offset bitmap (like the result of every other
+// function of this module) of at least ceil(len/8) bytes whose bit i is the negation of src-bit
+// offset+i, for every i < len.
+// @unit name=ops_buffer_not_0_64_8_0 props=C19 kind=bounded bound=grid_(offset,len,bytes,ptr_skew)=(0,64,8,0) fns=buffer_unary_not tier=thorough timeout=240 note=not_confirmed_under_load
+inst!(ops_buffer_not_0_64_8_0, 12, buffer_not_grid::<0, 64, 8, 0>());
+// @unit name=ops_buffer_not_0_70_9_0 props=C19 kind=bounded bound=grid_(offset,len,bytes,ptr_skew)=(0,70,9,0) fns=buffer_unary_not tier=thorough timeout=240 note=not_confirmed_under_load
+inst!(ops_buffer_not_0_70_9_0, 12, buffer_not_grid::<0, 70, 9, 0>());
+// @unit name=ops_buffer_not_64_65_17_0 props=C19 kind=bounded bound=grid_(offset,len,bytes,ptr_skew)=(64,65,17,0) fns=buffer_unary_not tier=thorough timeout=240 note=not_confirmed_under_load
+inst!(ops_buffer_not_64_65_17_0, 12, buffer_not_grid::<64, 65, 17, 0>());
+// @unit name=ops_buffer_not_128_10_19_1 props=C19 kind=bounded bound=grid_(offset,len,bytes,ptr_skew)=(128,10,19,1) fns=buffer_unary_not tier=thorough timeout=240 note=not_confirmed_under_load
+inst!(ops_buffer_not_128_10_19_1, 12, buffer_not_grid::<128, 10, 19, 1>());
+// @unit name=ops_buffer_not_3_12_2_0 props=C19 kind=bounded bound=grid_(offset,len,bytes,ptr_skew)=(3,12,2,0) fns=buffer_unary_not tier=thorough timeout=240 note=not_confirmed_under_load
+inst!(ops_buffer_not_3_12_2_0, 12, buffer_not_grid::<3, 12, 2, 0>());
+// @unit name=ops_buffer_not_65_63_16_0 props=C19 kind=bounded bound=grid_(offset,len,bytes,ptr_skew)=(65,63,16,0) fns=buffer_unary_not tier=thorough timeout=240 note=not_confirmed_under_load
+inst!(ops_buffer_not_65_63_16_0, 12, buffer_not_grid::<65, 63, 16, 0>());
